@@ -452,8 +452,9 @@ class XsdGroup(XsdComponent, MutableSequence[ModelParticleType],
         return self.overall_min_occurs(particle) == 0
 
     def is_missing(self, occurs: OccursCounterType) -> bool:
-        value = occurs[self.oid] or occurs[self]
-        return not self.is_emptiable() if value == 0 else self.min_occurs > value
+        if self.is_emptiable():
+            return False  # the missing occurrences can be matched by empty content
+        return self.min_occurs > (occurs[self.oid] or occurs[self])
 
     def get_expected(self, occurs: OccursCounterType) -> list[SchemaElementType]:
         """
